@@ -5,6 +5,7 @@ import (
 	"fmt"
 	"hash/crc32"
 	"io"
+	"os"
 	"runtime"
 	"sort"
 	"strings"
@@ -27,6 +28,17 @@ func init() {
 }
 
 var errScriptedWrite = errors.New("scripted write failure")
+
+// scriptedTimeout: the same scripted failure, dressed as a net.Error that reports a timeout (what a
+// connection with a write deadline returns); the client must treat it like any other write error
+type scriptedTimeout struct{}
+
+func (scriptedTimeout) Error() string   { return "scripted write failure: i/o timeout" }
+func (scriptedTimeout) Timeout() bool   { return true }
+func (scriptedTimeout) Temporary() bool { return true }
+func (scriptedTimeout) Is(t error) bool { return t == errScriptedWrite || t == os.ErrDeadlineExceeded }
+
+var failCount atomic.Int32
 
 type vclock struct {
 	mu  sync.Mutex
@@ -148,6 +160,9 @@ func (c *scriptConn) Write(p []byte) (int, error) {
 	c.mu.Unlock()
 	c.h.noteWriteAttempt(inst)
 	if fail {
+		if failCount.Add(1)%2 == 0 {
+			return 0, scriptedTimeout{}
+		}
 		return 0, errScriptedWrite
 	}
 	now := int(c.clock.Now().Sub(agentBase))
@@ -899,6 +914,7 @@ func runC10(o *out, thorough bool, r *rng, _ []string) map[string]interface{} {
 	}
 	cnt := runClientExhaustive(o, depth)
 	runClientRandom(o, r, n, 200, true)
+	retransmitRaceScenarios(o, r, 40)
 	return map[string]interface{}{"exhaustive_part": fmt.Sprintf("every history of <= %d operations over {Start(id1), Start(id2), response(id1), response(id2), garbage, tick past the deadline, fail next write of instance 0 / 1, Close} x 2 configurations: %d histories", depth, cnt)}
 }
 
@@ -937,6 +953,7 @@ func runC12(o *out, thorough bool, r *rng, _ []string) map[string]interface{} {
 	if thorough {
 		n = 1500
 	}
+	retransmitRaceScenarios(o, r, 20)
 	for i := 0; i < n; i++ {
 		// many transactions in flight, responses in random order with duplicates, unknown ids, garbage
 		k := r.pick([]int{1, 2, 5, 20, 60})
@@ -1027,6 +1044,7 @@ func runC15(o *out, thorough bool, r *rng, _ []string) map[string]interface{} {
 		o.count(fmt.Sprintf("closeConn:%d", cfg[2]))
 	}
 	closeErrorScenarios(o, r, 64)
+	reentrantHandlerScenarios(o, r, 24)
 	return nil
 }
 
@@ -1161,4 +1179,208 @@ func (r *rng) perm(n int) []int {
 		p[i], p[j] = p[j], p[i]
 	}
 	return p
+}
+
+// ---- targeted interleaving (oracle in Go, no model): a response arrives while a retransmission's Write is
+// in progress, and that Write then fails.  The transaction object then belongs to the reader's callback
+// (which completes it and gives it back to the pool); the retransmission path must not complete or
+// recycle it a second time.  Observable consequence of a double recycle: two later transactions share
+// one pooled object, so one handler is never invoked and the other is invoked for the wrong response.
+type raceConn struct {
+	rd       chan []byte
+	closedCh chan struct{}
+	once     sync.Once
+	mu       sync.Mutex
+	writes   map[[12]byte]int
+	holdTID  [12]byte
+	holdOn   bool
+	held     chan struct{}
+	release  chan struct{}
+	idle     chan struct{}
+}
+
+func (c *raceConn) Read(p []byte) (int, error) {
+	select {
+	case c.idle <- struct{}{}:
+	default:
+	}
+	select {
+	case d := <-c.rd:
+		return copy(p, d), nil
+	case <-c.closedCh:
+		return 0, io.ErrClosedPipe
+	}
+}
+
+func (c *raceConn) Write(p []byte) (int, error) {
+	var tid [12]byte
+	if len(p) >= 20 {
+		copy(tid[:], p[8:20])
+	}
+	c.mu.Lock()
+	c.writes[tid]++
+	n := c.writes[tid]
+	hold := c.holdOn && tid == c.holdTID && n >= 2
+	if hold {
+		c.holdOn = false
+	}
+	c.mu.Unlock()
+	if hold {
+		c.held <- struct{}{}
+		<-c.release
+		return 0, errScriptedWrite
+	}
+	return len(p), nil
+}
+func (c *raceConn) Close() error { c.once.Do(func() { close(c.closedCh) }); return nil }
+
+func retransmitRaceScenarios(o *out, r *rng, n int) {
+	for i := 0; i < n; i++ {
+		line := fmt.Sprintf("x response-during-failing-retransmission-write #%d", i)
+		clock := &vclock{now: agentBase}
+		conn := &raceConn{rd: make(chan []byte), closedCh: make(chan struct{}), writes: map[[12]byte]int{},
+			held: make(chan struct{}, 1), release: make(chan struct{}), idle: make(chan struct{}, 1)}
+		coll := &manualCollector{}
+		c, err := stun.NewClient(conn, stun.WithClock(clock), stun.WithCollector(coll), stun.WithRTO(100))
+		if err != nil {
+			continue
+		}
+		waitIdleCh := func() bool {
+			select {
+			case <-conn.idle:
+				return true
+			case <-time.After(2 * time.Second):
+				return false
+			}
+		}
+		waitIdleCh()
+		var mu sync.Mutex
+		invoked := map[int][]int{} // id -> transaction ids of the events its handler received
+		start := func(id int) error {
+			m := &stun.Message{TransactionID: clientTID(id), Raw: stunMsg(r, id, 20)}
+			return c.Start(m, func(e stun.Event) {
+				mu.Lock()
+				invoked[id] = append(invoked[id], agentIDOf(e.TransactionID))
+				mu.Unlock()
+			})
+		}
+		id0 := 100 + i%50
+		conn.mu.Lock()
+		conn.holdTID, conn.holdOn = clientTID(id0), true
+		conn.mu.Unlock()
+		_ = start(id0)
+		// the collector fires after the first deadline: the retransmission's Write blocks
+		now := agentBase.Add(101)
+		clock.set(now)
+		tickDone := make(chan struct{})
+		go func() { coll.f(now); close(tickDone) }()
+		select {
+		case <-conn.held:
+		case <-time.After(2 * time.Second):
+			o.failFor("C10", "retransmission-not-attempted", line)
+			_ = c.Close()
+			continue
+		}
+		// the response arrives meanwhile and is handled by the reader goroutine
+		conn.rd <- response(r, id0, 0)
+		waitIdleCh()
+		close(conn.release) // now the retransmission's Write fails
+		<-tickDone
+		mu.Lock()
+		n0 := len(invoked[id0])
+		mu.Unlock()
+		if n0 != 1 {
+			o.failFor("C10", "handler-invoked-twice", fmt.Sprintf("%s id=%d invoked=%d", line, id0, n0))
+		}
+		// two further transactions must be independent objects: each gets exactly its own response
+		a, b := 200+i%50, 300+i%50
+		_ = start(a)
+		_ = start(b)
+		conn.rd <- response(r, b, 0)
+		waitIdleCh()
+		conn.rd <- response(r, a, 0)
+		waitIdleCh()
+		mu.Lock()
+		okA := len(invoked[a]) == 1 && invoked[a][0] == a
+		okB := len(invoked[b]) == 1 && invoked[b][0] == b
+		mu.Unlock()
+		if !okA || !okB {
+			o.failFor("C12", "pooled-transaction-recycled-twice", fmt.Sprintf("%s a=%v b=%v", line, invoked[a], invoked[b]))
+			o.failFor("C10", "pooled-transaction-recycled-twice", fmt.Sprintf("%s a=%v b=%v", line, invoked[a], invoked[b]))
+		}
+		_ = c.Close()
+		o.count("response-during-failing-retransmission-write")
+	}
+}
+
+// reentrantHandlerScenarios (oracle in Go, no model): the WithHandler handler calls back into the client
+// (Indicate, Start, SetRTO, Close) when an unsolicited message arrives — the usual TURN pattern.  No client
+// lock may be held while it runs: the reader must come back, and Close must return.
+func reentrantHandlerScenarios(o *out, r *rng, n int) {
+	for i := 0; i < n; i++ {
+		line := fmt.Sprintf("x handler-calls-back-into-client #%d mode=%d", i, i%4)
+		clock := &vclock{now: agentBase}
+		conn := &raceConn{rd: make(chan []byte), closedCh: make(chan struct{}), writes: map[[12]byte]int{},
+			held: make(chan struct{}, 1), release: make(chan struct{}), idle: make(chan struct{}, 1)}
+		var c *stun.Client
+		calls := 0
+		var mu sync.Mutex
+		fallback := func(e stun.Event) {
+			mu.Lock()
+			calls++
+			mu.Unlock()
+			m := &stun.Message{TransactionID: clientTID(700 + i), Raw: stunMsg(r, 700+i, 20)}
+			switch i % 4 {
+			case 0:
+				_ = c.Indicate(m)
+			case 1:
+				_ = c.Start(m, func(stun.Event) {})
+			case 2:
+				c.SetRTO(50)
+				_ = c.Indicate(m)
+			default:
+				go func() { _ = c.Close() }() // Close waits for the reader: from another goroutine
+				_ = c.Indicate(m)
+			}
+		}
+		var err error
+		c, err = stun.NewClient(conn, stun.WithClock(clock), stun.WithCollector(&manualCollector{}), stun.WithHandler(fallback))
+		if err != nil {
+			continue
+		}
+		select {
+		case <-conn.idle:
+		case <-time.After(2 * time.Second):
+		}
+		done := make(chan struct{})
+		go func() {
+			conn.rd <- response(r, 4242, 0) // matches no transaction: goes to the fallback handler
+			close(done)
+		}()
+		ok := false
+		select {
+		case <-done:
+			select {
+			case <-conn.idle:
+				ok = true
+			case <-conn.closedCh:
+				ok = true
+			case <-time.After(2 * time.Second):
+			}
+		case <-time.After(2 * time.Second):
+		}
+		if !ok {
+			o.failFor("C15", "deadlock-handler-calls-back-into-client", line)
+			clientStuck.Add(1)
+			continue
+		}
+		cd := make(chan error, 1)
+		go func() { cd <- c.Close() }()
+		select {
+		case <-cd:
+		case <-time.After(3 * time.Second):
+			o.failFor("C15", "close-did-not-return", line)
+		}
+		o.count("handler-calls-back-into-client")
+	}
 }
